@@ -168,15 +168,28 @@ fn cmd_check(args: &[String]) {
     exec::install_panic_hook();
     sim::install_hooks();
     let sandbox = scratch_root().join(format!("shard-{}-{}", shard, std::process::id()));
-    let groups = workload::groups(&property, &tier, seed);
+    let mut groups = workload::groups(&property, &tier, seed);
     let total = groups.len();
+    // a seeded shuffle, so that a wall-clock budget or a group limit samples the workload
+    // evenly instead of always dropping the same (last) sources
+    {
+        let mut order = plan::Prng::new(seed ^ 0x0bad_5eed);
+        for i in (1..groups.len()).rev() {
+            let j = order.below(i + 1);
+            groups.swap(i, j);
+        }
+        for (pos, g) in groups.iter_mut().enumerate() {
+            g.position = pos;
+        }
+    }
+    let limit: usize = arg_value(args, "--groups-limit").and_then(|s| s.parse().ok()).unwrap_or(usize::MAX);
     // real time, for the budget only; never feeds a decision inside a run
     let t0 = real_now();
     let mut skipped = 0usize;
     let mut reported = 0usize;
     let mut seen_sigs: std::collections::HashMap<String, usize> = std::collections::HashMap::new();
     for g in groups {
-        if g.index % shards != shard {
+        if g.position % shards != shard || g.position >= limit {
             continue;
         }
         if let Some(only) = &only {
